@@ -237,7 +237,7 @@ public:
 
         // We can only take multiples-of-two nth roots on negative values
         const bool u = a.maybe_nan || b.maybe_nan ||
-            (a.lower() <= 0.0f && !(bPt & 2));
+            (a.lower() < 0.0f && !(bPt & 1));
         return Interval(i, u);
     }
 
